@@ -85,6 +85,8 @@ pub fn gen(r: &mut Rng) -> Value {
         // an argument value that starts with `=` (class of the C09 known finding: the body's `if <command> ${argument}`
         // re-reads `<command> =x` as an assignment to a variable named like the command)
         "array_join ${arr} \"=\"", "join_path \"=a\" b", "array_concat \"=x\" ${arr}", "set_from_array \"=x\"", "array_join ${arr} \"=-\"",
+        // an argument that spells a library command (it is text)
+        "array_join ${arr} array", "array_join ${arr} pwd", "concat array pwd", "join_path array pwd",
         // names padded with a blank: " va" / "vb " are not the caller's va / vb
         "unset \" va\"", "unset \"vb \"", "unset \" va\" \"vb \"",
         // arguments that name the called command's own working variables
